@@ -13,16 +13,16 @@ import (
 	"gorm.io/gorm"
 )
 
-type AMark struct {
+type C12Mark struct {
 	A    string `gorm:"primaryKey"`
 	B    string `gorm:"primaryKey"`
 	Name string
 }
 
-type AMarkUser struct {
+type C12MarkUser struct {
 	ID    uint `gorm:"primaryKey"`
 	Name  string
-	Marks []AMark `gorm:"many2many:a_user_marks"`
+	Marks []C12Mark `gorm:"many2many:c12_user_marks"`
 }
 
 type c12CK struct {
@@ -32,7 +32,7 @@ type c12CK struct {
 
 type c12CKObs struct {
 	Links   []string `json:"links"`   // join rows of the user, sorted
-	Created []string `json:"created"` // rows of a_marks in insertion order
+	Created []string `json:"created"` // rows of c12_marks in insertion order
 	MemRaw  []string `json:"mem_raw"` // in-memory field, field order, duplicates kept
 	Mem     []string `json:"mem"`     // distinct, sorted
 	Count   int64    `json:"count"`
@@ -61,16 +61,16 @@ func c12RunCK(in c12CK) (links, mem []string, count int64, err error) {
 			}
 		}()
 	}
-	if e := db.AutoMigrate(&AMark{}, &AMarkUser{}); e != nil {
+	if e := db.AutoMigrate(&C12Mark{}, &C12MarkUser{}); e != nil {
 		panic(e)
 	}
-	u := AMarkUser{ID: 1, Name: "u"}
+	u := C12MarkUser{ID: 1, Name: "u"}
 	if e := db.Create(&u).Error; e != nil {
 		return nil, nil, 0, e
 	}
-	var ms []AMark
+	var ms []C12Mark
 	for _, k := range in.Linked {
-		ms = append(ms, AMark{A: k[0], B: k[1], Name: k[0] + "|" + k[1]})
+		ms = append(ms, C12Mark{A: k[0], B: k[1], Name: k[0] + "|" + k[1]})
 	}
 	links, mem = []string{}, []string{}
 	if len(ms) > 0 {
@@ -78,16 +78,16 @@ func c12RunCK(in c12CK) (links, mem []string, count int64, err error) {
 			return nil, nil, 0, e
 		}
 	}
-	var del []AMark
+	var del []C12Mark
 	for _, k := range in.Delete {
-		del = append(del, AMark{A: k[0], B: k[1]})
+		del = append(del, C12Mark{A: k[0], B: k[1]})
 	}
 	if len(del) > 0 { // boundary, not judged: Delete() without values on a composite key renders `(a,b) IN (NULL)`, which SQLite rejects
 		if e := db.Model(&u).Association("Marks").Delete(del); e != nil {
 			return nil, nil, 0, e
 		}
 	}
-	rows, e := db.Raw("SELECT a_mark_a, a_mark_b FROM a_user_marks WHERE a_mark_user_id = 1").Rows()
+	rows, e := db.Raw("SELECT c12_mark_a, c12_mark_b FROM c12_user_marks WHERE c12_mark_user_id = 1").Rows()
 	if e != nil {
 		return nil, nil, 0, e
 	}
@@ -97,7 +97,7 @@ func c12RunCK(in c12CK) (links, mem []string, count int64, err error) {
 		links = append(links, a+"|"+b)
 	}
 	rows.Close()
-	if r2, e := db.Raw("SELECT a, b FROM a_marks ORDER BY rowid").Rows(); e == nil {
+	if r2, e := db.Raw("SELECT a, b FROM c12_marks ORDER BY rowid").Rows(); e == nil {
 		for r2.Next() {
 			var a, b string
 			_ = r2.Scan(&a, &b)
@@ -105,7 +105,7 @@ func c12RunCK(in c12CK) (links, mem []string, count int64, err error) {
 		}
 		r2.Close()
 	}
-	var found []AMark
+	var found []C12Mark
 	if e := db.Model(&u).Association("Marks").Find(&found); e != nil {
 		return nil, nil, 0, e
 	}
@@ -168,10 +168,10 @@ func c12CKProbe() {
 	fmt.Println("ck probe:", l, m, c, err, "want", c12CKWant(in))
 }
 
-var ckAlphabet = []string{"a", "b", "c", "a_b", "b_c", "x y", "a_", "_b", "nil", "0"}
+var c12CKAlphabet = []string{"a", "b", "c", "a_b", "b_c", "x y", "a_", "_b", "nil", "0"}
 
-func genC12CK(rng *rand.Rand, safe bool) c12CK {
-	alpha := ckAlphabet
+func c12GenCK(rng *rand.Rand, safe bool) c12CK {
+	alpha := c12CKAlphabet
 	if safe {
 		alpha = []string{"a", "b", "c", "x y", "nil", "0", "ab"}
 	}
@@ -197,7 +197,7 @@ func genC12CK(rng *rand.Rand, safe bool) c12CK {
 	return in
 }
 
-func ckDistinct(ts [][2]string) []string {
+func c12CKDistinct(ts [][2]string) []string {
 	seen := map[string]bool{}
 	out := []string{}
 	for _, t := range ts {
@@ -218,7 +218,7 @@ func c12CKCase(r *Result, in c12CK, lean json.RawMessage) {
 	want := c12CKWant(in)
 	created := append([]string{}, o.Created...)
 	sort.Strings(created)
-	wantCreated := ckDistinct(in.Linked)
+	wantCreated := c12CKDistinct(in.Linked)
 	sort.Strings(wantCreated)
 	switch {
 	case err != nil:
@@ -273,7 +273,7 @@ func init() {
 		var ops [][]interface{}
 		probe := c12CK{Linked: [][2]string{{"a_b", "c"}, {"a", "b_c"}}, Delete: [][2]string{{"a_b", "c"}}}
 		for i := 0; i < n && !expired(); i++ {
-			in := genC12CK(rng, i%5 != 0)
+			in := c12GenCK(rng, i%5 != 0)
 			if i == 0 {
 				in = probe // dedicated probe of the listed finding F12f
 			}
